@@ -18,6 +18,7 @@ import (
 	"github.com/elastic/go-libaudit/v2/vshim/vtime"
 	"github.com/elastic/go-libaudit/v2/vshim/vuser"
 
+	"verif/engine/enumx"
 	"verif/engine/ev"
 	"verif/engine/explore"
 	"verif/engine/par"
@@ -72,6 +73,12 @@ var pool = [][]string{
 	},
 	{ // g10: a syscall by uid/gid 1000 (id -> name lookups) whose key field holds several keys, one of them twice in a row (0x01 separated)
 		`type=SYSCALL msg=audit(1492037308.000:78): arch=c000003e syscall=159 success=yes exit=0 a0=1 a1=1 a2=0 a3=0 items=0 ppid=1 pid=1075 auid=1000 uid=1000 gid=1000 euid=1000 suid=1000 fsuid=1000 egid=1000 sgid=1000 fsgid=1000 tty=(none) ses=4 comm="ntpd" exe="/usr/sbin/ntpd" key=6101610162`,
+	},
+	{ // g12: logins under the primary name and under a spelling the database does not know (it is case sensitive)
+		`type=USER_AUTH msg=audit(1492037310.000:80): pid=600 uid=0 auid=4294967295 ses=4294967295 msg='op=PAM:authentication acct="alice" exe="/usr/sbin/sshd" hostname=h addr=10.0.0.9 terminal=ssh res=success'`,
+	},
+	{ // g13
+		`type=USER_AUTH msg=audit(1492037311.000:81): pid=600 uid=0 auid=4294967295 ses=4294967295 msg='op=PAM:authentication acct="Alice" exe="/usr/sbin/sshd" hostname=h addr=10.0.0.9 terminal=ssh res=failed'`,
 	},
 	{ // g11: a group deleted under the ALIAS name of gid 1000 (group name -> id lookup)
 		`type=DEL_GROUP msg=audit(1492037309.000:79): pid=700 uid=0 auid=1000 ses=3 msg='op=delete-group acct="st" exe="/usr/sbin/groupdel" hostname=h addr=10.0.0.9 terminal=pts/0 res=success'`,
@@ -527,6 +534,10 @@ func checkC15(tier, raceBin string) int {
 	if tier == "thorough" {
 		maxLen = 4
 	}
+	// the per-call clauses (inputs intact, coalescing again / from a fresh parse gives an equal event) over
+	// every group the C09 enumerations produce (all st_mode values, all record types single / repeated /
+	// without SYSCALL, every native syscall, every arrangement of auxiliary records, non-ASCII and relative names)
+	enumx.Run(run, "C15", []string{"c15:c09-modes", "c15:c09-groups", "c15:c09-singles", "c15:c09-repeats", "c15:c09-names", "c15:c09-syscalls"}, tier, 16, true)
 	hs := c15Histories(maxLen)
 	var jobs []interface{}
 	n := 64
